@@ -41,6 +41,7 @@ type Scenario struct {
 	NoiseDen int    `json:"noise_den"` // non-strict: 1/NoiseDen of the packet writes are preceded by IGNORE/DEBUG
 	Rekeys   int    `json:"rekeys"`
 	Honest   int    `json:"honest,omitempty"` // lying-signer: number of honestly signed exchanges
+	Legacy   string `json:"legacy,omitempty"` // legacy: role of the scripted non-strict peer (client | server)
 	Gex      Gex    `json:"gex"`
 	FragDen  int    `json:"frag_den"`
 	Switch   int    `json:"switch_den"`
@@ -90,7 +91,7 @@ func randomFault(r *rand.Rand) Op {
 	switch r.IntN(7) {
 	case 0, 1, 2:
 		op.Action = "insert"
-		op.Kind = []int{2, 4, 3, 192, 2, 4}[r.IntN(6)]
+		op.Kind = []int{2, 4, 3, 192, 2, 4, 7, 5, 6, 50, 80, 21}[r.IntN(12)]
 	case 3:
 		op.Action = "dup"
 	case 4, 5:
@@ -179,6 +180,11 @@ func gen(r *rand.Rand, prop, tier string, index int) any {
 		if r.IntN(5) == 0 { // double faults, sampled
 			s.Ops = append(s.Ops, randomFault(r))
 		}
+	case k < 6:
+		// a scripted peer that does not know strict KEX, with IGNORE/DEBUG noise at any point
+		s.Kind = "legacy"
+		s.Legacy = []string{"client", "server"}[r.IntN(2)]
+		s.NoiseDen = []int{0, 1, 2, 4}[r.IntN(4)]
 	case k < 7:
 		s.Kind = "clean" // strict on: sequence numbers restart at every NEWKEYS (checked by the wire monitor)
 		s.Rekeys = 1 + r.IntN(3)
@@ -206,7 +212,7 @@ var enumConfigs = []Scenario{
 }
 
 var enumActions = []Op{
-	{Action: "insert", Kind: 2}, {Action: "insert", Kind: 4}, {Action: "insert", Kind: 3}, {Action: "insert", Kind: 192}, {Action: "dup"}, {Action: "delete"}, {Action: "swap"},
+	{Action: "insert", Kind: 2}, {Action: "insert", Kind: 4}, {Action: "insert", Kind: 3}, {Action: "insert", Kind: 192}, {Action: "insert", Kind: 7}, {Action: "insert", Kind: 5}, {Action: "insert", Kind: 80}, {Action: "dup"}, {Action: "delete"}, {Action: "swap"},
 }
 
 const invalidVariants = 24
@@ -1143,6 +1149,10 @@ var H = &core.Harness{
 		s := scn.(*Scenario)
 		if s.Kind == "gex" {
 			runGex(c, s)
+			return
+		}
+		if s.Kind == "legacy" {
+			runLegacy(c, s)
 			return
 		}
 		runHarness(c, scn)
